@@ -163,6 +163,8 @@ def run(prog, tier):
     obs.extend(purity_obligations(prog, "arguments-not-mutated", [base] + subclasses))
 
     obs.extend(dtype_hazard_obligations(prog, "float-arithmetic", ['inference/likelihoods.py']))
+    from .common import call_order_obligations
+    obs.extend(call_order_obligations(prog, "arguments-in-order", ['inference/likelihoods.py']))
     obs.extend(overflow_obligations(prog, "overflow-safe", prog.subclasses("Likelihood")))
 
     meta = {
